@@ -28,14 +28,8 @@ func runC05(c *Ctx) {
 	ruleSessionRemoval(c, r1)
 	c.R.Floor(r1, 14)
 
-	// R2: table pairing on insert
 	const r2 = "C05.R2 call recorded in all three tables together"
-	sc := dlr + "syncCall"
-	for _, t := range []string{"invocations", "invocationByCall"} {
-		c.Reach(r2, sc, "after d.calls insert every exit passes d."+t+" insert", ReachSpec{From: `^mapupdate:%d\.calls\[`, Stop: `^mapupdate:%d\.` + t + `\[`, Target: "EXIT", Want: false})
-	}
-	// nothing can return between the three inserts: no answer to the caller (refusal) after recording
-	c.Reach(r2, sc, "no refusal after the call was recorded", ReachSpec{From: `^mapupdate:%d\.calls\[`, Target: dTrySendTo + `%caller, `, Want: false})
+	ruleCallRecording(c, r2)
 	c.R.Floor(r2, 3)
 
 	// R3: type-driven completeness of clean-up
@@ -157,4 +151,15 @@ func runC05(c *Ctx) {
 	c.Reach(r6, ol, "… destroyed scope too", ReachSpec{
 		Stop: `^call:router\.\(\*realm\)\.onLeave\$2\(&local:testaments\.destroyed\)$`, Cut: []ir.Clause{clause("exempt", T(`^%shutdown$`), T(`^%killAll$`), F(`^local:hasTstm$`))}, Target: "EXIT", Want: false})
 	c.R.Floor(r6, 8)
+}
+
+// ruleCallRecording: a call is entered in calls, invocations and invocationByCall
+// together, and only after the last refusal.
+func ruleCallRecording(c *Ctx, r2 string) {
+	sc := dlr + "syncCall"
+	for _, t := range []string{"invocations", "invocationByCall"} {
+		c.Reach(r2, sc, "after d.calls insert every exit passes d."+t+" insert", ReachSpec{From: `^mapupdate:%d\.calls\[`, Stop: `^mapupdate:%d\.` + t + `\[`, Target: "EXIT", Want: false})
+	}
+	// nothing can return between the three inserts: no answer to the caller (refusal) after recording
+	c.Reach(r2, sc, "no refusal after the call was recorded", ReachSpec{From: `^mapupdate:%d\.calls\[`, Target: dTrySendTo + `%caller, `, Want: false})
 }
